@@ -55,6 +55,17 @@ func (c11) Cases(tier string, seed int64, kf *KnownFindings) []Case {
 	return cs
 }
 
+// AltA / AltB: two Go types that the caller's name map sends to ONE wire class name
+type AltA struct {
+	X int32
+	Y string
+}
+type AltB struct {
+	P string
+	Q int64
+	R bool
+}
+
 type c11inst struct {
 	enc *hessian.Encoder
 	dec *hessian.Decoder
@@ -85,6 +96,7 @@ func newC11World() *c11world {
 		[]interface{}{int32(1), "two"},
 		&zoo.Bag{P01: &zoo.K01{A: 1}, P02: &zoo.K02{A: 2}, P03: &zoo.K03{A: 3}, L03: []zoo.K03{{A: 4}}},
 		"plain string",
+		&AltA{X: 1, Y: "a"},
 	}
 	n := &zoo.Node{Val: 9}
 	n.Next = n
@@ -94,18 +106,25 @@ func newC11World() *c11world {
 		mergeMaps(w.tm, w.nm, v)
 	}
 	mergeMaps(w.tm, w.nm, &zoo.K01{})
+	// both Alt types are encoded under one class name (a legitimate caller-side mapping)
+	w.nm["AltA"], w.nm["AltB"] = "shared.Alt", "shared.Alt"
+	w.tm["shared.Alt"] = reflect.TypeOf(AltA{})
 	for _, v := range w.values {
 		b, err := hessian.ToBytes(v, w.nm) // also completes the name map
 		if err == nil {
 			w.wires = append(w.wires, b)
 		}
 	}
-	w.garbage = [][]byte{{0x60}, {0x51, 0x90}, {0x72, 0x90, 0x90, 0x90}, {'C', 0x01, 'a'}, {0x40}, {0x58, 0x92, 0x90}, {'S', 0x00, 0x05, 'a'}, {'O', 0x95}, {'M', 0x90}}
+	unknownCls, _ := hspec.Encode(hspec.Object("no.such.Class", []string{"a", "b"}, hspec.Int(1), hspec.Int(2)), hspec.Canonical{}, hspec.EncOpts{})
+	unknownList, _ := hspec.Encode(hspec.List("[no.such", hspec.Int(1)), hspec.Canonical{}, hspec.EncOpts{})
+	defThenScalar := append(append([]byte{}, unknownCls[:len(unknownCls)-3]...), 0x90) // definition, then an int instead of an instance
+	w.garbage = [][]byte{unknownCls, unknownList, defThenScalar, unknownCls[:len(unknownCls)-3], {0x60}, {0x51, 0x90}, {0x72, 0x90, 0x90, 0x90}, {'C', 0x01, 'a'}, {0x40}, {0x58, 0x92, 0x90}, {'S', 0x00, 0x05, 'a'}, {'O', 0x95}, {'M', 0x90}}
 	w.encProbes = []interface{}{
 		&zoo.WithInner{X: zoo.Inner{A: 3, S: "probe"}, P: w.shared, N: 6}, // re-sends `shared` and the classes WithInner / Inner
 		w.shared,
 		&zoo.SlPtr{V: []*zoo.Inner{w.shared}},
 		n,
+		&AltB{P: "p", Q: 2, R: true}, // same class name as AltA (sent in histories), other fields
 	}
 	// decode probes (reference-encoded): definitions numbered from 0 on a fresh stream
 	k01 := hspec.Object("K01", []string{"a"}, hspec.Int(11))
@@ -119,7 +138,8 @@ func newC11World() *c11world {
 		return 0
 	})
 	p1, _ := hspec.Encode(msg, ch, hspec.EncOpts{})
-	w.decProbes = [][]byte{p1, {0x60}, {0x51, 0x90}, {0x72, 0x90, 0x90, 0x91}, {'O', 0x90}, {0x79, 0x51, 0x91}}
+	p2, _ := hspec.Encode(hspec.Object("Inner", []string{"s", "a"}, hspec.String("perm"), hspec.Int(5)), hspec.Canonical{}, hspec.EncOpts{})
+	w.decProbes = [][]byte{p1, p2, {0x60}, {0x51, 0x90}, {0x72, 0x90, 0x90, 0x91}, {'O', 0x90}, {0x79, 0x51, 0x91}}
 	return w
 }
 
